@@ -854,7 +854,10 @@ fn parse_json_filter(input: &[u8], output: &mut [u8]) -> Result<(usize, usize), 
             verify_char(input, b'[', &mut inpos)?;
             burn_array(input, &mut inpos)?;
         } else {
-            burn_key_and_value(input, &mut inpos)?;
+            // Unknown field: skip it. The opening quote of its name is already consumed.
+            burn_string(input, &mut inpos)?;
+            eat_colon_with_whitespace(input, &mut inpos)?;
+            burn_value(input, &mut inpos)?;
         }
     }
 
